@@ -63,10 +63,14 @@ def ns_options(n):
     if n >= 2:
         out.append(tuple("a" if i % 2 == 0 else "b" for i in range(n)))
         out.append(tuple(["a"] + ["b.c"] * (n - 1)))
+        # namespace parts starting with an underscore; a namespace that is the root's namespace plus another type's
+        out.append(tuple(["_a._b"] + ["_c" if i % 2 == 0 else "_a._b" for i in range(n - 1)]))
+        out.append(tuple(["com"] + ["com.shop" if i % 2 else "shop" for i in range(n - 1)]))
     return out
 
 
-TNAMES = ["Data", "Items", "Tv", "Basic", "Extra"]  # names ending in characters of ".avsc" (suffix stripping must be exact)
+TNAMES = ["Data", "Items", "Tv", "Basic", "Extra"]
+NAME_MODES = {"same-short-names": ["Data", "Items", "Items", "Items", "Items"], "underscore-names": ["Data", "_Items", "_Tv_", "__", "_a"]}  # names ending in characters of ".avsc" (suffix stripping must be exact)
 
 
 def full(i, ns):
@@ -280,6 +284,20 @@ def canon_of(fa, schema):
 
 
 def check_repo(fa, res, tmpdir, n, es, kinds, ns, real, seen, tier, layout="plain"):
+    if layout in NAME_MODES:
+        # other type names for this repository: the same short name in different namespaces / names starting with '_'
+        global TNAMES
+        if layout == "same-short-names" and len(set(ns[1:])) != len(ns[1:]):
+            return
+        saved_names, TNAMES = TNAMES, NAME_MODES[layout]
+        try:
+            return _check_repo(fa, res, tmpdir, n, es, kinds, ns, real, seen, tier, layout)
+        finally:
+            TNAMES = saved_names
+    return _check_repo(fa, res, tmpdir, n, es, kinds, ns, real, seen, tier, layout)
+
+
+def _check_repo(fa, res, tmpdir, n, es, kinds, ns, real, seen, tier, layout="plain"):
     from fastavro._schema_common import UnknownType
     from fastavro.repository.base import SchemaRepositoryError
 
@@ -462,6 +480,11 @@ def run_unit(unit, tier):
             if es:
                 for real in reals[:60:2]:
                     check_repo(fa, res, tmpdir, n, es, kinds, ns, real, seen, tier, layout="with-defaults")
+                for real in reals[:40:2]:
+                    check_repo(fa, res, tmpdir, n, es, kinds, ns, real, seen, tier, layout="underscore-names")
+                if n >= 3:
+                    for real in reals[:120]:
+                        check_repo(fa, res, tmpdir, n, es, kinds, ns, real, seen, tier, layout="same-short-names")
             if any(kinds[i] == "record" for i in range(1, n)):
                 for real in reals[:60:2]:
                     check_repo(fa, res, tmpdir, n, es, kinds, ns, real, seen, tier, layout="errors")
